@@ -22,6 +22,7 @@
 From Coq Require Import List NArith Bool String Ascii.
 From Dae Require Import C07_Spec.
 From Dae.gen Require Import C07_Consts.
+From Dae.gen Require C07_FwdKey.
 Import ListNotations.
 Open Scope N_scope.
 
@@ -598,3 +599,63 @@ Definition dialer_plan (r : router) (named : option string) (control_host host :
   if same_host host control_host then
     if String.eqb nm "" then Ok PlanBootstrap else select_upstream r nm bm q
   else select_upstream r nm bm q.
+
+(* ================================================================================================ *)
+(* control/dns_control.go: dnsForwarderKey, newDnsForwarderKey, getOrCreateDnsForwarder,               *)
+(*                         forwardWithDialArg (retire on failure)                                      *)
+(* ================================================================================================ *)
+(* dialArgument, as far as the key reads it ("" for a nil dialer / outbound) *)
+Record dialarg := { d_l4 : N; d_ipv : N; d_dialer : string; d_outbound : string; d_target : N * N; d_mark : N; d_mptcp : bool }.
+Definition L4_UDP : N := 2.
+
+Inductive comp := CS (s : string) | CN (n : N).
+Definition up_comp (u : uid) (c : N) : comp :=
+  if c =? 1 then CS (u_scheme u) else if c =? 2 then CS (u_host u) else if c =? 3 then CN (u_port u)
+  else if c =? 4 then CS (u_path u) else CN 0.
+Definition dial_comp (d : dialarg) (c : N) : comp :=
+  if c =? 1 then CN (d_l4 d) else if c =? 2 then CN (d_ipv d) else if c =? 3 then CS (d_dialer d)
+  else if c =? 4 then CS (d_outbound d) else if c =? 5 then CN (fst (d_target d) * 65536 + snd (d_target d))
+  else if c =? 6 then CN (d_mark d) else if c =? 7 then CN (if d_mptcp d then 1 else 0) else CN 0.
+
+Definition fkey := (list comp * list comp)%type.
+(* the key made of the given components *)
+Definition fwd_key_of (ufs dfs : list N) (u : uid) (d : dialarg) : fkey := (map (up_comp u) ufs, map (dial_comp d) dfs).
+(* newDnsForwarderKey: the components the CODE uses (coq/gen/C07_FwdKey.v, regenerated from the source on every run) *)
+Definition fwd_key : uid -> dialarg -> fkey := fwd_key_of C07_FwdKey.FwdKeyUpstreamFields C07_FwdKey.FwdKeyDialFields.
+
+Definition comp_eqb (a b : comp) : bool :=
+  match a, b with CS x, CS y => String.eqb x y | CN x, CN y => x =? y | _, _ => false end.
+Fixpoint comps_eqb (a b : list comp) : bool :=
+  match a, b with
+  | [], [] => true
+  | x :: a', y :: b' => comp_eqb x y && comps_eqb a' b'
+  | _, _ => false
+  end.
+Definition fkey_eqb (a b : fkey) : bool := comps_eqb (fst a) (fst b) && comps_eqb (snd a) (snd b).
+
+(* dnsForwarderCache: key -> the forwarder, remembered here by the upstream it was created for *)
+Definition fcache := list (fkey * uid).
+
+(* getOrCreateDnsForwarder: a cached forwarder under the key, else dnsForwarderFactory(upstream, dialArg) stored under it *)
+Definition get_or_create (fc : fcache) (u : uid) (d : dialarg) : uid * fcache :=
+  match find (fun e => fkey_eqb (fst e) (fwd_key u d)) fc with
+  | Some e => (snd e, fc)
+  | None => (u, (fwd_key u d, u) :: fc)
+  end.
+
+(* forwardWithDialArg: a failed exchange over UDP retires the cached forwarder (shouldRetireCachedDnsForwarder;
+   stream forwarders of a direct dialer stay) *)
+Definition retire (fc : fcache) (k : fkey) : fcache := filter (fun e => negb (fkey_eqb (fst e) k)) fc.
+
+Record fstep := { fs_u : uid; fs_d : dialarg; fs_fail : bool }.
+
+(* a history of upstream queries (successive questions, re-asks): the upstream each used forwarder was created for *)
+Fixpoint run_forward (fc : fcache) (h : list fstep) : list uid * fcache :=
+  match h with
+  | [] => ([], fc)
+  | s :: rest =>
+    let '(b, fc1) := get_or_create fc (fs_u s) (fs_d s) in
+    let fc2 := if fs_fail s && (d_l4 (fs_d s) =? L4_UDP) then retire fc1 (fwd_key (fs_u s) (fs_d s)) else fc1 in
+    let '(bs, fc3) := run_forward fc2 rest in
+    (b :: bs, fc3)
+  end.
